@@ -234,6 +234,9 @@ func (m *C07Mon) End(h *Hand, s *pokerface.GameState) {
 			g.LoadState(cloneGS(g.GetState()))
 			continue
 		}
+		if t.Kind == "query" || t.Kind == "probe" {
+			continue
+		}
 		err := applyOp(g, t.Op)
 		k++
 		if (err == nil) != (t.Err == "") {
@@ -246,4 +249,9 @@ func (m *C07Mon) End(h *Hand, s *pokerface.GameState) {
 		}
 	}
 	h.Rep.Inc("deterministic_replays")
+}
+
+// a getter that rewrites the state (for example the offered actions of the seat to act)
+func (m *C07Mon) QueryChanged(h *Hand, what string) {
+	h.Fail("C07/state-changed-outside-operations", "by=read-only-query", what)
 }
